@@ -4,7 +4,7 @@ Decides structural clauses only (see DESIGN.md section 5, C09)."""
 from __future__ import annotations
 
 from sa.guards import CountResolver
-from . import lib_guards, lib_module
+from . import lib_guards, lib_module, lib_gate
 
 LEVEL = "other"
 EXPLANATION = ("Static analysis of /repo's current C and Python source (clang type-checked AST, Python ast): "
@@ -19,6 +19,7 @@ def run(ctx):
     seen = lib_guards.analyse(ctx, P, resolver=R)
     lib_guards.presence(ctx, seen)
     lib_module.narrowing(ctx, P)
+    lib_gate.gate(ctx, P)
     ctx.assumptions += [
         "clang-14's AST reflects the code that setup.py compiles (same include paths, -std=c99)",
         "libc and CPython API functions behave as documented",
